@@ -4,7 +4,7 @@ ENGINES = [
     {
         "name": "vloop",
         "path": "vf/engine/vloop.py vf/engine/explore.py vf/engine/netsim.py",
-        "serves_properties": ["C04"],
+        "serves_properties": ["C04", "C05"],
         "kind_free_text": "stateless model checker for asyncio code: virtual-time BaseEventLoop stepped by hand, "
         "deviation-bounded exhaustive DFS over environment choices (segment delivery, timers, EOF/RST, cancel), "
         "replay of choice prefixes on fresh objects",
@@ -24,6 +24,19 @@ CHECKS = [
         "written from the statement. Exhaustive within that bound.",
         "note": "Trusted: CPython asyncio primitives, the reference retry machine, the scripted transport as a complete "
         "description of transport behaviour. Not covered: scripts longer than the bound (except the listed long families).",
+    },    {
+        "id": "C05",
+        "engine": "vloop",
+        "level": "model_checking",
+        "technique": "stateless deviation-bounded exploration of all schedules (reply arrival vs timers, cancellation points, start orders) of concurrent callers on the real ECU client under a virtual-time event loop; monitor on the task-tagged transport log",
+        "text": "2-3 caller tasks (1-2 requests each, caller-unique identifiers), the real cyclic tester-present worker and a "
+        "reconnect caller share one real ECU object; for every scenario (reply scripts R/PR/-/C per caller, start orders, "
+        "max_retry 0/1) every schedule with <= 2 deviations (3 in the thorough tier on two-caller scenarios) is executed: reply "
+        "delivered while tasks are runnable, timer before a deliverable reply, both in one iteration, one cancel at any "
+        "iteration boundary. A monitor checks that no other task writes/reconnects inside an exchange window, that every "
+        "returned reply echoes the caller's own identifier, and that all callers finish (no lost lock).",
+        "note": "Trusted: CPython asyncio primitives and FIFO callback order as reproduced by vloop; in-memory tagging transport. "
+        "Not covered: more than 3 callers + worker, more than the stated deviations; per-scenario execution caps are reported in the evidence.",
     },
 ]
 
